@@ -35,7 +35,7 @@ Qed.
 (** The policy of [prune_targets], with the local definitions named. *)
 Definition prune_rem (g : graph) (ep : string) : bool :=
   existsb (λ t, (negb (t_is_epic t) && negb (negb (t_is_epic t) && done_or_canceled (t_state t))
-                 && String.eqb (t_epic t) ep)%bool) (all_tasks g).
+                 && negb (String.eqb (t_epic t) "") && String.eqb (t_epic t) ep)%bool) (all_tasks g).
 Definition prune_ok (g : graph) (t : task) : bool :=
   if t_is_epic t then negb (prune_rem g (t_id t))
   else (negb (t_is_epic t) && done_or_canceled (t_state t))%bool.
@@ -57,24 +57,26 @@ Qed.
 Lemma prune_ok_spec g t :
   prune_ok g t = true <->
   (if t_is_epic t
-   then forall c, c ∈ all_tasks g -> t_is_epic c = false -> t_epic c = t_id t ->
+   then forall c, c ∈ all_tasks g -> t_is_epic c = false -> t_epic c = t_id t -> t_epic c <> "" ->
                   done_or_canceled (t_state c) = true
    else done_or_canceled (t_state t) = true).
 Proof.
   unfold prune_ok. destruct (t_is_epic t) eqn:Hk; [|done].
   unfold prune_rem. rewrite negb_existsb_true. split.
-  - intros H c Hc Hkc Hep. specialize (H c Hc). rewrite Hkc in H. cbn in H.
-    apply eqb_true in Hep. rewrite Hep, andb_true_r in H. by apply negb_false_iff in H.
+  - intros H c Hc Hkc Hep Hne. specialize (H c Hc). rewrite Hkc in H. cbn in H.
+    apply eqb_true in Hep. apply eqb_false in Hne. rewrite Hep, Hne in H. cbn in H.
+    rewrite !andb_true_r in H. by apply negb_false_iff in H.
   - intros H c Hc. destruct (t_is_epic c) eqn:Hkc; [done|]. cbn.
     destruct (String.eqb (t_epic c) (t_id t)) eqn:Hep; [|apply andb_false_r].
-    apply eqb_true in Hep. rewrite (H c Hc Hkc Hep). done.
+    destruct (String.eqb (t_epic c) "") eqn:Hne; [cbn; rewrite !andb_false_r; reflexivity|].
+    apply eqb_true in Hep. apply eqb_false in Hne. rewrite (H c Hc Hkc Hep Hne). done.
 Qed.
 
 Lemma prune_targets_spec g i : Inv g ->
   (i ∈ prune_targets g <->
    exists t, g_tasks g !! i = Some t /\
      (if t_is_epic t
-      then forall k c, g_tasks g !! k = Some c -> t_is_epic c = false -> t_epic c = i ->
+      then forall k c, g_tasks g !! k = Some c -> t_is_epic c = false -> t_epic c = i -> t_epic c <> "" ->
                        done_or_canceled (t_state c) = true
       else done_or_canceled (t_state t) = true)).
 Proof.
@@ -83,8 +85,8 @@ Proof.
   - intros (t & -> & [Hok Hin]%elem_of_list_filter).
     apply all_tasks_lookup in Hin as (k & Hk). destruct (inv_key g HI k t Hk) as [Hid _].
     exists t. rewrite Hid. split; [done|]. apply prune_ok_spec in Hok.
-    destruct (t_is_epic t); [|done]. intros k' c Hc Hkc Hep.
-    apply (Hok c); [apply all_tasks_lookup; eauto|done|congruence].
+    destruct (t_is_epic t); [|done]. intros k' c Hc Hkc Hep Hne.
+    apply (Hok c); [apply all_tasks_lookup; eauto|done|congruence|done].
   - intros (t & Hl & H). destruct (inv_key g HI i t Hl) as [Hid _].
     exists t. split; [done|]. apply elem_of_list_filter. split; [|apply all_tasks_lookup; eauto].
     apply prune_ok_spec. destruct (t_is_epic t); [|done].
@@ -130,11 +132,12 @@ Qed.
 
 Lemma prune_epic_has_no_remaining_child g i t k c : Inv g ->
   i ∈ prune_targets g -> g_tasks g !! i = Some t -> t_is_epic t = true ->
-  g_tasks g !! k = Some c -> t_is_epic c = false -> t_epic c = i ->
+  g_tasks g !! k = Some c -> t_is_epic c = false -> t_epic c = i -> i <> "" ->
   t_state c = "done" \/ t_state c = "canceled".
 Proof.
-  intros HI (t' & Hl & H)%prune_targets_spec Hl' Hk Hc Hkc Hep; [|done].
-  rewrite Hl' in Hl. injection Hl as <-. rewrite Hk in H. specialize (H k c Hc Hkc Hep).
+  intros HI (t' & Hl & H)%prune_targets_spec Hl' Hk Hc Hkc Hep Hne; [|done].
+  rewrite Hl' in Hl. injection Hl as <-. rewrite Hk in H.
+  assert (Hne' : t_epic c <> "") by (rewrite Hep; exact Hne). specialize (H k c Hc Hkc Hep Hne').
   unfold done_or_canceled in H. apply orb_prop in H as [H|H]; apply eqb_true in H; auto.
 Qed.
 
@@ -220,7 +223,7 @@ Proof.
     mig e. rewrite Hmk, Hke in Hall.
     assert (Hjf : g_tasks (finalize graw) !! j = Some (migrate t)) by (by rewrite finalize_lookup, Hj).
     mig t. specialize (Hall j (migrate t) Hjf). rewrite Hmk0, Hmst0, Hmep0 in Hall.
-    specialize (Hall Hkt eq_refl).
+    specialize (Hall Hkt eq_refl Hne).
     apply Hn. apply (prune_targets_spec _ _ HIf). exists (migrate t). split; [done|].
     by rewrite Hmk0, Hkt, Hmst0.
   - intros a b (Hab & Ha & Hb')%Hd.
